@@ -948,7 +948,15 @@ func (d *decoder[T]) kChan(f *decFnInfo, rv reflect.Value) {
 		if !d.d.TryNil() {
 			d.decodeValueNoCheckNil(rv9, fn)
 		}
-		rv.Send(rv9)
+		if rvChanged {
+			// the chan was made here: nobody can receive from it before Decode returns,
+			// so a send that has to wait would wait for ever
+			if !rv.TrySend(rv9) {
+				halt.errorf("cannot decode more than %d values into a nil chan: pass a chan that has a receiver", any(rvlen))
+			}
+		} else {
+			rv.Send(rv9)
+		}
 	}
 	if isArray {
 		d.arrayEnd()
